@@ -414,6 +414,14 @@ class StateRun(object):
             self.sim.log('ev', 'STREAM', line[:100])
             self.events_left -= 1
 
+    def w_newconsensus(self):
+        """Tor switches to a new consensus (same relays): a data-block event between the circuit / stream events"""
+        self.consensus_left -= 1
+        if self.tor.emit('NEWCONSENSUS', '', self.ns_lines(), form='data'):
+            self.wire.append((self.tor.sent, 'NEWCONSENSUS', None))
+            self.sim.probe('newconsensus-between-events')
+            self.sim.log('ev', 'NEWCONSENSUS')
+
     # ------------------------------------------------------------------ world moves
     def world_actions(self):
         if self.frozen and not ({'CIRC', 'STREAM'} <= self.tor.subscribed):
@@ -445,6 +453,8 @@ class StateRun(object):
             if c.status == 'BUILT':
                 w = 3 if c.close_requested else 1
                 acts.append((w, 'w:circ-close:%d' % c.id, lambda c=c: self.w_circ_end(c, 'CLOSED')))
+        if self.consensus_left > 0 and 'NEWCONSENSUS' in self.tor.subscribed:
+            acts.append((1, 'w:newconsensus', self.w_newconsensus))
         if len(self.streams) < P.get('max_streams', 8):
             acts.append((3, 'w:stream-new', self.w_stream_new))
         built = [c for c in alive_c if c.status == 'BUILT']
@@ -710,6 +720,12 @@ class StateRun(object):
         self.sim.log('CLOSECIRCUIT', cid, tok[1:])
         if c is None:
             return err(552, 'Unknown circuit "%d"' % cid)
+        if self.close_refusals_left > 0 and self.ch.chance(1, 4, 'refuseclose'):
+            # fault: Tor refuses the command; the circuit lives on (and may end later for reasons of its own)
+            self.close_refusals_left -= 1
+            self.sim.fault('tor-refuses-CLOSECIRCUIT')
+            self.refused_closes.add(('circuit', cid))
+            return err(551, 'Internal error')
         c.close_requested = True
         if 'IfUnused' in tok[1:] and any(s.circ is c for s in self.streams.values()):
             self.sim.probe('close-never-happens')
@@ -734,6 +750,11 @@ class StateRun(object):
         self.sim.log('CLOSESTREAM', sid)
         if s is None:
             return err(552, 'Unknown stream "%d"' % sid)
+        if self.close_refusals_left > 0 and self.ch.chance(1, 4, 'refusesclose'):
+            self.close_refusals_left -= 1
+            self.sim.fault('tor-refuses-CLOSESTREAM')
+            self.refused_closes.add(('stream', sid))
+            return err(551, 'Unable to close the stream right now')
         if self.ch.chance(1, 2, 'sevfirst'):
             self.sim.probe('event-before-ack')
             self.w_stream_set(s, 'CLOSED', reason='REQUESTED')
@@ -882,7 +903,23 @@ class StateRun(object):
         acts = []
         if self.boot and self.unrelated_left > 0:
             acts.append((1, 'unrelated-cmd', self.op_unrelated))
+        if self.boot and self.app_closes_left > 0 and (self.model.circs or self.model.streams):
+            acts.append((1, 'app-close', self.op_app_close))
         return acts
+
+    def op_app_close(self):
+        """C07: the application asks for a circuit or stream to be closed (Tor may refuse); whatever comes of it,
+        the live state must keep following what Tor reports"""
+        ch, m = self.ch, self.model
+        self.app_closes_left -= 1
+        pool = [o for o in list(m.circs.values()) + list(m.streams.values()) if o.real is not None]
+        if not pool:
+            return
+        o = ch.pick(sorted(pool, key=lambda o: (o.__class__.__name__, o.id)), 'appclosewhich')
+        self.sim.probe('app-close-request')
+        self.sim.log('app-close', o.__class__.__name__, o.id)
+        d = o.real.close()
+        d.addErrback(lambda f: None)
 
     def op_unrelated(self):
         self.unrelated_left -= 1
@@ -907,6 +944,10 @@ class StateRun(object):
         self.pending_snapshot = None
         self.unrelated_left = ch.draw(4, 'unrelated')
         self.unrelated_pending = 0
+        self.close_refusals_left = ch.draw(3, 'closerefusals') if self.prop in ('C07', 'C08') else 0
+        self.consensus_left = ch.draw(3, 'nconsensus') if self.prop in ('C07', 'C08') else 0
+        self.app_closes_left = ch.draw(4, 'appcloses') if self.prop == 'C07' else 0
+        self.refused_closes = set()
         self.make_relays()
         self.build_tor()
         self.events_left = 5 + ch.draw(self.P.get('max_events', 120), 'nevents')
@@ -1039,21 +1080,29 @@ class Reg(object):
 
 
 class Wait(object):
-    def __init__(self, kind, mobj, d, extra=None):
+    def __init__(self, kind, mobj, d, extra=None, on_fire=None):
         self.kind = kind            # when_built | when_closed | circ_close | stream_close
         self.mobj = mobj
         self.fired = 0
         self.outcome = None
         self.extra = extra
+        self.on_fire = on_fire      # called once, from inside the first notification
         d.addCallbacks(self._ok, self._err)
 
     def _ok(self, v):
         self.fired += 1
         self.outcome = ('ok', v)
+        self._hook()
 
     def _err(self, f):
         self.fired += 1
         self.outcome = ('err', f.type.__name__)
+        self._hook()
+
+    def _hook(self):
+        fn, self.on_fire = self.on_fire, None
+        if fn is not None:
+            fn(self)
 
 
 class C08Run(StateRun):
@@ -1295,11 +1344,13 @@ class C08Run(StateRun):
                 decided = mc.built_ever or mc.gone
                 sim.probe('wait-requested-after-deciding-event' if decided else 'wait-requested-before-deciding-event')
                 sim.log('when_built()', mc.id, mc.state)
-                self.waits.append(Wait('when_built', mc, mc.real.when_built()))
+                nest = self.nested_wait if ch.chance(1, 3, 'nestwait') else None
+                self.waits.append(Wait('when_built', mc, mc.real.when_built(), on_fire=nest))
             else:
                 sim.probe('wait-requested-after-deciding-event' if mc.gone else 'wait-requested-before-deciding-event')
                 sim.log('when_closed()', mc.id, mc.state)
-                self.waits.append(Wait('when_closed', mc, mc.real.when_closed()))
+                nest = self.nested_wait if ch.chance(1, 3, 'nestwait') else None
+                self.waits.append(Wait('when_closed', mc, mc.real.when_closed(), on_fire=nest))
         else:
             live = [s for s in m.streams.values() if s.real is not None]
             if not live:
@@ -1312,6 +1363,15 @@ class C08Run(StateRun):
             sim.log('stream.close()', ms.id)
             d = ms.real.close()
             self.waits.append(Wait('stream_close', ms, d))
+
+    def nested_wait(self, w):
+        """from inside the notification of a wait, the same kind of wait is requested again on the same circuit
+        (retry / logging code does that): it is decided already, so it must complete like the others"""
+        self.sim.probe('wait-requested-inside-a-wait-notification')
+        self.sim.log('nested', w.kind, w.mobj.id)
+        real = w.mobj.real
+        d = real.when_built() if w.kind == 'when_built' else real.when_closed()
+        self.waits.append(Wait(w.kind, w.mobj, d))
 
     def check_waits(self, final):
         sim = self.sim
@@ -1340,7 +1400,8 @@ class C08Run(StateRun):
                     sim.fail('C08.when-closed-early', 'circuit %d is %s but when_closed() fired' % (mo.id, mo.state))
             else:
                 what = 'circuit' if w.kind == 'circ_close' else 'stream'
-                if w.fired and not mo.gone:
+                refused = (what, mo.id) in self.refused_closes
+                if w.fired and not mo.gone and not (refused and w.outcome[0] == 'err'):
                     sim.fail('C08.close-completed-before-%s-gone' % what,
                              '%s %d close() completed (%r) while Tor still reports it %s' % (what, mo.id, w.outcome, mo.state))
                 if final and mo.gone and not w.fired:
